@@ -86,7 +86,9 @@ theorem step_ok (lvl : Int) (app : App) (s s' : St) (h : idleStep lvl app s = so
     · exact ⟨wf, by simp [measure, rank, hs]⟩
     · exact ⟨wf, by simp [measure, rank, hs]⟩
     · refine ⟨wf, ?_⟩
-      simp only [measure, hs]; split <;> simp [rank]
+      simp only [measure, hs]; repeat' split
+      all_goals simp [rank]
+  · rename_i hs; cases h; exact ⟨wf, by simp [measure, rank, hs]⟩
   · rename_i hs
     split at h
     · cases h; exact ⟨wf, by simp [measure, rank, hs]⟩
